@@ -1,4 +1,5 @@
-import DuneVerif.Proofs.C07
+import DuneVerif.Proofs.C07Ext
+import DuneVerif.Gen.C07
 /-!
 # C07 — property theorems (statements only; the lemmas live in `Proofs/C07.lean`)
 
@@ -304,5 +305,359 @@ example : (unpackAll idCodec Int.toNat 0
     [.stat (basic 1) 1 [0], .dyn (basic 1) [0] [1, 1, 1], .dyn (basic 1) [0] [], .raw []]).1.map
       (fun d => match d with | .stat _ _ c => c | .dyn _ _ c => c | .raw b => b)
     = [[7], [], [8, 9], [5, 5, 5]] := by decide
+
+
+/-! # Round two -/
+
+/-! ## (iii) datatypes: nested members, the predefined handles -/
+
+/-- **struct_covers / contiguous_covers.**  For *any* nesting of `MPI_Type_create_struct`, `MPI_Type_contiguous`
+and `MPI_Type_create_resized` (pairs of pairs, pairs of FieldVectors, …): a cell is communicated iff some member,
+in one of its `count` copies, communicates it. -/
+theorem struct_covers (members : List (Nat × Nat × TMap)) (j : Nat) :
+    (struct members).covers j = true ↔
+      ∃ m ∈ members, m.1 ≤ j ∧ (contiguous m.2.1 m.2.2).covers (j - m.1) = true :=
+  Proofs.struct_covers members j
+
+theorem contiguous_covers (n : Nat) (t : TMap) (j : Nat) :
+    (contiguous n t).covers j = true ↔ ∃ k, k < n ∧ k * t.extent ≤ j ∧ t.covers (j - k * t.extent) = true :=
+  Proofs.contiguous_covers n t j
+
+theorem resized_covers (t : TMap) (ext j : Nat) : (resized t ext).covers j = t.covers j := rfl
+
+-- pair<FieldVector<int,3>, char> at cell level: cells 0..2 and 3 are covered, the padding cell 4 is not
+example : (List.range 6).map (Types.pair 0 (Types.fieldVector 0 3 (basic 1)) 3 (basic 1) 5).covers
+    = [true, true, true, true, false, false] := by decide
+
+/-- **traits_table_sound.**  Every line `ComposeMPITraits(p, m)` of the current mpitraits.hh maps the C++ type `p` to
+the predefined datatype that the MPI standard defines for `p`; no type is listed twice.  (The table is regenerated
+from the source on every run.) -/
+theorem traits_table_sound :
+    (∀ r ∈ Gen.traitsTable, mpiCType r.2 = some r.1) ∧ (Gen.traitsTable.map (·.1)).Nodup := by decide
+
+/-- **op_table_sound.**  `ComposeMPIOp(func, op)` replaces a functor on an intrinsic type by the predefined MPI
+operation that computes that functor. -/
+theorem op_table_sound :
+    (∀ r ∈ Gen.opTable, mpiOpFunctor r.2 = some r.1) ∧ (Gen.opTable.map (·.1)).Nodup := by decide
+
+/-- **user_op_registration.**  User functors are registered with `commute = false`, and the callback computes
+`inout[i] = func(in[i], inout[i])` — the operand order MPI prescribes (`in` holds the lower ranks' partial result). -/
+theorem user_op_registration :
+    Gen.userOpCommute = false ∧ Gen.userOpArgs = ["in", "inout"] ∧ Gen.userOpTarget = "inout" := by decide
+
+/-! ## (i) collectives -/
+
+/-- **gatherv for arbitrary displacement layouts** (gaps, reversed, any order): a cell of the root's buffer that lies
+in a communicated block of rank `k`'s segment and in no later rank's segment holds rank `k`'s cell
+(`segs` = per rank (send buffer, count, displacement), `pre ++ s :: post` splits at rank `k`). -/
+theorem gatherv_cells {α} (tm : TMap) (hwf : tm.wf) (hpos : 0 < tm.extent) (pre post : List (List α × Nat × Nat))
+    (s : List α × Nat × Nat) (hs : s.1.length = s.2.1 * tm.extent) (out : List α) (i : Nat) (hi : i < out.length)
+    (hin : Proofs.inSeg tm s.2.1 s.2.2 i) (hpost : ∀ t ∈ post, ¬ Proofs.inSeg tm t.2.1 t.2.2 i) :
+    (Spec.gathervAt tm ((pre ++ s :: post).map (·.1)) ((pre ++ s :: post).map (·.2.1))
+        ((pre ++ s :: post).map (·.2.2)) out)[i]? = s.1[i - s.2.2 * tm.extent]? := by
+  rw [Proofs.gathervAt_eq_fold]
+  exact Proofs.gathervFold_last tm hwf hpos pre post s hs out i hi hin hpost
+
+/-- … and a cell in nobody's segment is untouched. -/
+theorem gatherv_untouched {α} (tm : TMap) (hwf : tm.wf) (hpos : 0 < tm.extent) (segs : List (List α × Nat × Nat))
+    (out : List α) (i : Nat) (h : ∀ t ∈ segs, ¬ Proofs.inSeg tm t.2.1 t.2.2 i) :
+    (Spec.gathervAt tm (segs.map (·.1)) (segs.map (·.2.1)) (segs.map (·.2.2)) out)[i]? = out[i]? := by
+  rw [Proofs.gathervAt_eq_fold]
+  exact Proofs.gathervFold_untouched tm hwf hpos segs out i h
+
+-- reversed layout with a gap: rank 0's two ints at 3.., rank 1's one int at 0; cell 1 in rank 1's… no: untouched
+example : Spec.gathervAt (full 1) [[1, 2], [3]] [2, 1] [3, 0] [9, 9, 9, 9, 9] = [3, 9, 9, 1, 2] := by decide
+example : Proofs.inSeg (full 1) 2 3 4 ∧ ¬ Proofs.inSeg (full 1) 1 0 4 := by decide
+
+/-- **every rank**: what `gather`, `gatherv`, `scatter`, `scatterv`, `allgather(v)`, `broadcast`, `allreduce` leave
+on rank `r` -/
+theorem gather_ranks {α} (tm : TMap) (n root : Nat) (ins outs : List (List α)) (r : Nat) :
+    (Spec.gather tm n root ins outs)[r]? =
+      (outs[r]?).map (fun out => if r = root then Spec.gatherAt tm n ins out else out) := by
+  simp [Spec.gather, List.getElem?_mapIdx]
+
+theorem gatherv_ranks {α} (tm : TMap) (root : Nat) (ins : List (List α)) (lens displs : List Nat)
+    (outs : List (List α)) (r : Nat) :
+    (Spec.gatherv tm root ins lens displs outs)[r]? =
+      (outs[r]?).map (fun out => if r = root then Spec.gathervAt tm ins lens displs out else out) := by
+  simp [Spec.gatherv, List.getElem?_mapIdx]
+
+theorem allgather_ranks {α} (tm : TMap) (n : Nat) (ins outs : List (List α)) (r : Nat) :
+    (Spec.allgather tm n ins outs)[r]? = (outs[r]?).map (Spec.gatherAt tm n ins) := by
+  simp [Spec.allgather]
+
+theorem allgatherv_ranks {α} (tm : TMap) (ins : List (List α)) (lens displs : List Nat) (outs : List (List α))
+    (r : Nat) :
+    (Spec.allgatherv tm ins lens displs outs)[r]? = (outs[r]?).map (Spec.gathervAt tm ins lens displs) := by
+  simp [Spec.allgatherv]
+
+theorem scatter_ranks {α} (tm : TMap) (n root : Nat) (sends recvs : List (List α)) (s : List α)
+    (hroot : sends[root]? = some s) (r : Nat) :
+    (Spec.scatter tm n root sends recvs)[r]? = (recvs[r]?).map (Spec.scatterAt tm n s r) := by
+  simp [Spec.scatter, hroot, List.getElem?_mapIdx]
+
+theorem scatterv_ranks {α} (tm : TMap) (root : Nat) (sends : List (List α)) (lens displs : List Nat)
+    (recvs : List (List α)) (s : List α) (hroot : sends[root]? = some s) (r l d : Nat)
+    (hl : lens[r]? = some l) (hd : displs[r]? = some d) :
+    (Spec.scatterv tm root sends lens displs recvs)[r]? = (recvs[r]?).map (Spec.scattervAt tm s l d) := by
+  simp [Spec.scatterv, hroot, List.getElem?_mapIdx, hl, hd]
+
+theorem bcast_ranks {α} (tm : TMap) (n root : Nat) (bufs : List (List α)) (s : List α)
+    (hroot : bufs[root]? = some s) (r : Nat) :
+    (Spec.bcast tm n root bufs)[r]? = (bufs[r]?).map (fun b => if r = root then b else transferN tm n s 0 b 0) := by
+  simp [Spec.bcast, hroot, List.getElem?_mapIdx]
+
+theorem allreduce_ranks {α} (e n : Nat) (op : List α → List α → List α) (ins outs : List (List α)) (r : Nat) :
+    (Spec.allreduce e n op ins outs)[r]? =
+      (outs[r]?).map (fun out => transferN (full e) n (Spec.allreduceVal e n op ins) 0 out 0) := by
+  simp [Spec.allreduce]
+
+/-- **allgather / gather, fully communicated types**: the receive buffer (of exactly the total size) *is* the
+concatenation of the contributions in rank order — on every rank for `allgather`, on the root for `gather`. -/
+theorem allgather_full {α} (e n : Nat) (ins outs : List (List α)) (hl : ∀ inp ∈ ins, inp.length = n * e)
+    (hout : ∀ out ∈ outs, out.length = ins.length * n * e) :
+    Spec.allgather (full e) n ins outs = List.replicate outs.length ins.flatten := by
+  apply List.ext_getElem?
+  intro r
+  rw [allgather_ranks, List.getElem?_replicate]
+  by_cases hr : r < outs.length
+  · rw [List.getElem?_eq_getElem hr, if_pos hr]
+    simp only [Option.map_some]
+    rw [Proofs.gatherAt_full e n ins hl _ (hout _ (List.getElem_mem hr))]
+  · rw [List.getElem?_eq_none (by omega), if_neg hr]; rfl
+
+theorem gather_full {α} (e n root : Nat) (ins outs : List (List α)) (hl : ∀ inp ∈ ins, inp.length = n * e)
+    (hroot : root < outs.length) (hout : outs[root].length = ins.length * n * e) :
+    (Spec.gather (full e) n root ins outs)[root]? = some ins.flatten ∧
+      ∀ r, r ≠ root → (Spec.gather (full e) n root ins outs)[r]? = outs[r]? := by
+  constructor
+  · rw [gather_ranks, List.getElem?_eq_getElem hroot]
+    simp only [Option.map_some, if_true]
+    rw [Proofs.gatherAt_full e n ins hl _ hout]
+  · intro r hr
+    rw [gather_ranks]
+    cases outs[r]? <;> simp [hr]
+
+example : Spec.allgather (full 2) 1 [[1, 2], [3, 4], [5, 6]] [[0, 0, 0, 0, 0, 0], [9, 9, 9, 9, 9, 9], [7, 7, 7, 7, 7, 7]]
+    = List.replicate 3 [1, 2, 3, 4, 5, 6] := by decide
+
+/-- **scatter** hands rank `r` the `r`-th chunk of the root's buffer, and **scatter ∘ gather = id** -/
+theorem scatter_full {α} (e n : Nat) (parts : List (List α)) (hl : ∀ p ∈ parts, p.length = n * e) (r : Nat)
+    (hr : r < parts.length) (rcv : List α) (hrcv : rcv.length = n * e) :
+    Spec.scatterAt (full e) n parts.flatten r rcv = parts[r] :=
+  Proofs.scatterAt_full e n parts hl r hr rcv hrcv
+
+theorem scatter_chunks {α} (tm : TMap) (hwf : tm.wf) (n : Nat) (parts : List (List α))
+    (hl : ∀ p ∈ parts, p.length = n * tm.extent) (r : Nat) (hr : r < parts.length) (rcv : List α) :
+    Spec.scatterAt tm n parts.flatten r rcv = transferN tm n (parts[r]) 0 rcv 0 :=
+  Proofs.scatterAt_flatten tm hwf n parts hl r hr rcv
+
+theorem scatter_inverse {α} (e n : Nat) (ins : List (List α)) (hl : ∀ inp ∈ ins, inp.length = n * e) (out : List α)
+    (hout : out.length = ins.length * n * e) (r : Nat) (hr : r < ins.length) (rcv : List α)
+    (hrcv : rcv.length = n * e) :
+    Spec.scatterAt (full e) n (Spec.gatherAt (full e) n ins out) r rcv = ins[r] := by
+  rw [Proofs.gatherAt_full e n ins hl out hout]
+  exact Proofs.scatterAt_full e n ins hl r hr rcv hrcv
+
+example : Spec.scatterAt (full 1) 2 (Spec.gatherAt (full 1) 2 [[1, 2], [3, 4], [5, 6]] [0, 0, 0, 0, 0, 0]) 1 [9, 9]
+    = [3, 4] := by decide
+
+/-- **broadcast, fully communicated types**: afterwards every rank holds the root's buffer -/
+theorem bcast_full {α} (e n root : Nat) (bufs : List (List α)) (hl : ∀ b ∈ bufs, b.length = n * e)
+    (hroot : root < bufs.length) : Spec.bcast (full e) n root bufs = List.replicate bufs.length bufs[root] := by
+  apply List.ext_getElem?
+  intro r
+  rw [bcast_ranks (full e) n root bufs bufs[root] (List.getElem?_eq_getElem hroot), List.getElem?_replicate]
+  by_cases hr : r < bufs.length
+  · rw [List.getElem?_eq_getElem hr, if_pos hr]
+    simp only [Option.map_some]
+    by_cases hrr : r = root
+    · subst hrr; simp
+    · rw [if_neg hrr, Proofs.transferN_full,
+        Proofs.copyCells_all _ _ _ (hl _ (List.getElem_mem hroot)) (hl _ (List.getElem_mem hr))]
+  · rw [List.getElem?_eq_none (by omega), if_neg hr]; rfl
+
+example : Spec.bcast (full 1) 2 1 [[0, 0], [7, 8], [1, 1]] = List.replicate 3 [7, 8] := by decide
+
+/-- **allreduce_any_tree.**  Element by element, the value `MPI_Allreduce` leaves on every rank is what *any*
+family of reduction trees evaluates to — trees over any permutation of the ranks' `j`-th elements when `op` is
+associative and commutative (the predefined operations) … -/
+theorem allreduce_any_tree {α} (e n : Nat) (op : List α → List α → List α)
+    (hassoc : ∀ a b c, op (op a b) c = op a (op b c)) (hcomm : ∀ a b, op a b = op b a) (ins : List (List α))
+    (ts : Nat → Proofs.Tree (List α)) (hts : ∀ j, j < n → (ts j).leaves.Perm (ins.map (Spec.elem e j))) :
+    Spec.allreduceVal e n op ins = (List.range n).flatMap (fun j => (ts j).eval op) :=
+  Proofs.allreduceVal_trees e n op ins ts
+    (fun j hj => Proofs.tree_eval_eq_foldRanks op hassoc hcomm (ts j) _ (hts j hj))
+
+/-- … and trees whose leaves are the ranks' elements *in rank order* (any bracketing) when `op` is only associative:
+what MPI guarantees for operations created with `commute = false` (`user_op_registration`), i.e. for every user
+functor. -/
+theorem allreduce_any_bracketing {α} (e n : Nat) (op : List α → List α → List α)
+    (hassoc : ∀ a b c, op (op a b) c = op a (op b c)) (ins : List (List α))
+    (ts : Nat → Proofs.Tree (List α)) (hts : ∀ j, j < n → (ts j).leaves = ins.map (Spec.elem e j)) :
+    Spec.allreduceVal e n op ins = (List.range n).flatMap (fun j => (ts j).eval op) :=
+  Proofs.allreduceVal_trees e n op ins ts
+    (fun j hj => by rw [← hts j hj]; exact Proofs.tree_eval_leaves op hassoc (ts j))
+
+theorem allreduce_rank_order_assoc {β : Type} (op : β → β → β) (hassoc : ∀ a b c, op (op a b) c = op a (op b c))
+    (t : Proofs.Tree β) : some (t.eval op) = Spec.foldRanks op t.leaves :=
+  Proofs.tree_eval_leaves op hassoc t
+
+-- "keep the first" is associative, not commutative; ((x0 x1) (x2 x3)) over four ranks = rank 0's element
+example : (Proofs.Tree.node (.node (.leaf [1]) (.leaf [2])) (.node (.leaf [3]) (.leaf [4]))).leaves
+    = [[1, 2, 3, 4], [2, 0, 0, 0], [3, 0, 0, 0], [4, 0, 0, 0]].map (Spec.elem 1 0) := by decide
+example : Spec.allreduceVal 1 1 (fun a _ => a) [[1], [2], [3], [4]] = [1] := by decide
+
+/-- **allreduce, every rank**: with buffers of exactly `n` elements every rank ends up with the element-wise
+rank-order fold, which has `n` elements again. -/
+theorem allreduce_full {α} (e n : Nat) (op : List α → List α → List α)
+    (hop : ∀ a b, a.length = e → b.length = e → (op a b).length = e) (ins outs : List (List α)) (hne : ins ≠ [])
+    (hl : ∀ x ∈ ins, x.length = n * e) (hout : ∀ out ∈ outs, out.length = n * e) :
+    Spec.allreduce e n op ins outs = List.replicate outs.length (Spec.allreduceVal e n op ins) ∧
+      (Spec.allreduceVal e n op ins).length = n * e := by
+  have hlen := Proofs.allreduceVal_length e n op hop ins hne hl
+  refine ⟨?_, hlen⟩
+  apply List.ext_getElem?
+  intro r
+  rw [allreduce_ranks, List.getElem?_replicate]
+  by_cases hr : r < outs.length
+  · rw [List.getElem?_eq_getElem hr, if_pos hr]
+    simp only [Option.map_some]
+    rw [Proofs.transferN_full, Proofs.copyCells_all _ _ _ hlen (hout _ (List.getElem_mem hr))]
+  · rw [List.getElem?_eq_none (by omega), if_neg hr]; rfl
+
+example : Spec.allreduce 1 2 (zipOp (· + ·)) [[1, 2], [10, 20], [100, 200]] [[0, 0], [0, 0], [0, 0]]
+    = List.replicate 3 [111, 222] := by decide
+
+/-! ### the stand-in, once more: partially communicated types per collective, and the tie to communication.hh -/
+
+/-- for IndexPair / ParallelLocalIndex every collective of the stand-in agrees with the one-process MPI result on
+every communicated cell (the stand-in assigns whole objects) -/
+theorem seq_agrees_gather {α} (tm : TMap) (hwf : tm.wf) (hpos : 0 < tm.extent) (inp out : List α) (len root i : Nat)
+    (hc : tm.covers (i % tm.extent) = true) :
+    (Seq.gather tm.extent inp out len root)[i]? = ((Spec.gather tm len 0 [inp] [out]).getD 0 [])[i]? := by
+  have := seq_agrees_on_communicated_state tm hwf hpos inp 0 out 0 len i (by simpa using hc)
+  simpa [Seq.gather, Spec.gather, Spec.gatherAt, List.zipIdx, List.mapIdx_cons, List.mapIdx_nil] using this
+
+theorem seq_agrees_gatherv {α} (tm : TMap) (hwf : tm.wf) (hpos : 0 < tm.extent) (inp : List α) (sendLen : Nat)
+    (out : List α) (displ root i : Nat) (hc : tm.covers ((i - displ * tm.extent) % tm.extent) = true) :
+    (Seq.gatherv tm.extent inp sendLen out sendLen displ root)[i]? =
+      ((Spec.gatherv tm 0 [inp] [sendLen] [displ] [out]).getD 0 [])[i]? := by
+  have := seq_agrees_on_communicated_state tm hwf hpos inp 0 out displ sendLen i hc
+  simpa [Seq.gatherv, Spec.gatherv, Spec.gathervAt, List.mapIdx_cons, List.mapIdx_nil] using this
+
+theorem seq_agrees_scatter {α} (tm : TMap) (hwf : tm.wf) (hpos : 0 < tm.extent) (send recv : List α) (len root i : Nat)
+    (hc : tm.covers (i % tm.extent) = true) :
+    (Seq.scatter tm.extent send recv len root)[i]? = ((Spec.scatter tm len 0 [send] [recv]).getD 0 [])[i]? := by
+  have := seq_agrees_on_communicated_state tm hwf hpos send 0 recv 0 len i (by simpa using hc)
+  simpa [Seq.scatter, Spec.scatter, Spec.scatterAt, List.mapIdx_cons, List.mapIdx_nil] using this
+
+theorem seq_agrees_scatterv {α} (tm : TMap) (hwf : tm.wf) (hpos : 0 < tm.extent) (send : List α) (sendLen displ : Nat)
+    (recv : List α) (root i : Nat) (hc : tm.covers (i % tm.extent) = true) :
+    (Seq.scatterv tm.extent send sendLen displ recv sendLen root)[i]? =
+      ((Spec.scatterv tm 0 [send] [sendLen] [displ] [recv]).getD 0 [])[i]? := by
+  have := seq_agrees_on_communicated_state tm hwf hpos send displ recv 0 sendLen i (by simpa using hc)
+  simpa [Seq.scatterv, Spec.scatterv, Spec.scattervAt, List.mapIdx_cons, List.mapIdx_nil] using this
+
+theorem seq_agrees_allgather {α} (tm : TMap) (hwf : tm.wf) (hpos : 0 < tm.extent) (sbuf : List α) (count : Nat)
+    (rbuf : List α) (i : Nat) (hc : tm.covers (i % tm.extent) = true) :
+    (Seq.allgather tm.extent sbuf count rbuf)[i]? = ((Spec.allgather tm count [sbuf] [rbuf]).getD 0 [])[i]? := by
+  have := seq_agrees_on_communicated_state tm hwf hpos sbuf 0 rbuf 0 count i (by simpa using hc)
+  simpa [Seq.allgather, Spec.allgather, Spec.gatherAt, List.zipIdx] using this
+
+theorem seq_agrees_allgatherv {α} (tm : TMap) (hwf : tm.wf) (hpos : 0 < tm.extent) (inp : List α) (sendLen : Nat)
+    (out : List α) (displ i : Nat) (hc : tm.covers ((i - displ * tm.extent) % tm.extent) = true) :
+    (Seq.allgatherv tm.extent inp sendLen out sendLen displ)[i]? =
+      ((Spec.allgatherv tm [inp] [sendLen] [displ] [out]).getD 0 [])[i]? := by
+  have := seq_agrees_on_communicated_state tm hwf hpos inp 0 out displ sendLen i hc
+  simpa [Seq.allgatherv, Spec.allgatherv, Spec.gathervAt] using this
+
+/-- the single-element forms (`igather`, `iscatter`, `iallgather`) are loops of length one -/
+theorem seq_agrees_single {α} (tm : TMap) (hwf : tm.wf) (hpos : 0 < tm.extent) (dataIn dataOut : List α) (i : Nat)
+    (hc : tm.covers (i % tm.extent) = true) :
+    (Seq.assignElem tm.extent dataIn 0 dataOut 0)[i]? = (transferN tm 1 dataIn 0 dataOut 0)[i]? := by
+  rw [Proofs.assignElem_copyLoop]
+  have := seq_agrees_on_communicated_state tm hwf hpos dataIn 0 dataOut 0 1 i (by simpa using hc)
+  simpa using this
+
+/-- **seq_source_\*.**  The bodies of `Communication<No_Comm>` as translated from the current communication.hh
+(`Gen.Seq.*`, regenerated on every run) are the model functions `Seq.*` the `seq_eq_oneproc_*` theorems talk about. -/
+theorem seq_source_reductions {α} (e : Nat) (x : List α) (len : Nat) :
+    Gen.Seq.sum_1 e x = Seq.reduceScalar x ∧ Gen.Seq.prod_1 e x = Seq.reduceScalar x ∧
+    Gen.Seq.min_1 e x = Seq.reduceScalar x ∧ Gen.Seq.max_1 e x = Seq.reduceScalar x ∧
+    Gen.Seq.sum_2 e x len = Seq.reduceInplace x len ∧ Gen.Seq.prod_2 e x len = Seq.reduceInplace x len ∧
+    Gen.Seq.min_2 e x len = Seq.reduceInplace x len ∧ Gen.Seq.max_2 e x len = Seq.reduceInplace x len ∧
+    Gen.Seq.allreduce_2 e x len = Seq.reduceInplace x len ∧ Gen.Seq.iallreduce_1 e x = Seq.iallreduceInplace x :=
+  ⟨rfl, rfl, rfl, rfl, rfl, rfl, rfl, rfl, rfl, rfl⟩
+
+theorem seq_source_allreduce {α} (e : Nat) (inp out : List α) (len : Nat) :
+    Gen.Seq.allreduce_3 e inp out len = Seq.allreduceInOut e inp out len ∧
+    Gen.Seq.iallreduce_2 e inp out = Seq.iallreduceInOut inp out := by
+  refine ⟨?_, rfl⟩
+  simpa [Gen.Seq.allreduce_3, Seq.allreduceInOut] using Proofs.forCopy_eq_copyLoop e inp out 0 0 len
+
+theorem seq_source_broadcast {α} (e : Nat) (x : List α) (len root : Nat) :
+    Gen.Seq.broadcast_3 e x len root = Seq.broadcast x len root ∧ Gen.Seq.ibroadcast_2 e x root = Seq.ibroadcast x root :=
+  ⟨rfl, rfl⟩
+
+theorem seq_source_gather {α} (e : Nat) (inp out : List α) (len root : Nat) :
+    Gen.Seq.gather_4 e inp out len root = Seq.gather e inp out len root ∧
+    Gen.Seq.igather_3 e inp out root = Seq.igather e inp out root := by
+  refine ⟨?_, rfl⟩
+  simpa [Gen.Seq.gather_4, Seq.gather] using Proofs.forCopy_eq_copyLoop e inp out 0 0 len
+
+theorem seq_source_gatherv {α} (e : Nat) (inp : List α) (sendLen : Nat) (out : List α) (recvLen displ root : Nat) :
+    Gen.Seq.gatherv_6 e inp sendLen out recvLen displ root = Seq.gatherv e inp sendLen out recvLen displ root ∧
+    Gen.Seq.allgatherv_5 e inp sendLen out recvLen displ = Seq.allgatherv e inp sendLen out recvLen displ := by
+  constructor
+  · simpa [Gen.Seq.gatherv_6, Seq.gatherv] using Proofs.forCopy_eq_copyLoop e inp out 0 displ sendLen
+  · simpa [Gen.Seq.allgatherv_5, Seq.allgatherv] using Proofs.forCopy_eq_copyLoop e inp out 0 displ sendLen
+
+theorem seq_source_scatter {α} (e : Nat) (send recv : List α) (len root : Nat) :
+    Gen.Seq.scatter_4 e send recv len root = Seq.scatter e send recv len root ∧
+    Gen.Seq.iscatter_3 e send recv root = Seq.iscatter e send recv root := by
+  refine ⟨?_, rfl⟩
+  simpa [Gen.Seq.scatter_4, Seq.scatter] using Proofs.forCopy_eq_copyLoop e send recv 0 0 len
+
+theorem seq_source_scatterv {α} (e : Nat) (send : List α) (sendLen displ : Nat) (recv : List α) (recvLen root : Nat) :
+    Gen.Seq.scatterv_6 e send sendLen displ recv recvLen root = Seq.scatterv e send sendLen displ recv recvLen root := by
+  simpa [Gen.Seq.scatterv_6, Seq.scatterv] using Proofs.forCopy_eq_copyLoop e send recv displ 0 sendLen
+
+theorem seq_source_allgather {α} (e : Nat) (sbuf : List α) (count : Nat) (rbuf dataIn dataOut : List α) :
+    Gen.Seq.allgather_3 e sbuf count rbuf = Seq.allgather e sbuf count rbuf ∧
+    Gen.Seq.iallgather_2 e dataIn dataOut = Seq.iallgather e dataIn dataOut := by
+  refine ⟨?_, rfl⟩
+  simpa [Gen.Seq.allgather_3, Seq.allgather] using Proofs.forCopy_eq_copyLoop e sbuf rbuf 0 0 count
+
+/-- rank 0 of 1, `barrier()` returns 0, and all five point-to-point methods refuse (`ParallelError`) -/
+theorem seq_source_constants :
+    Gen.Seq.rank = Seq.rank ∧ Gen.Seq.size = Seq.size ∧ Gen.Seq.barrier = Seq.barrier ∧
+    Gen.Seq.p2pThrows = [("send", true), ("isend", true), ("recv", true), ("irecv", true), ("rrecv", true)] := by
+  decide
+
+/-! ## (ii) receive with size discovery -/
+
+/-- **rrecv_roundtrip.**  Whatever the receive object held (any length `m`), `rrecv` returns the sent elements with
+the sent length (fully communicated element types; for the others: the transfer into the resized object, by
+definition of `Spec.rrecv`). -/
+theorem rrecv_roundtrip {α} (e n m : Nat) (he : 0 < e) (src dflt dst : List α) (hs : src.length = n * e)
+    (hdf : dflt.length = e) (hd : dst.length = m * e) : Spec.rrecv (full e) dflt src n dst = src :=
+  Proofs.rrecv_full e n m he src dflt dst hs hdf hd
+
+/-- in a ring with any shift, rank `r` ends up with exactly what rank `(r - shift) mod P` sent -/
+theorem ring_rrecv_roundtrip {α} (e : Nat) (he : 0 < e) (dflt : List α) (hdf : dflt.length = e) (shift : Nat)
+    (srcs : List (List α × Nat)) (dsts : List (List α)) (hP : srcs.length = dsts.length)
+    (hs : ∀ s ∈ srcs, s.1.length = s.2 * e) (hd : ∀ d ∈ dsts, ∃ m, d.length = m * e) (r : Nat) (hr : r < dsts.length) :
+    (Spec.ringRrecv (full e) dflt shift srcs dsts)[r]? =
+      (srcs[(r + dsts.length - shift % dsts.length) % dsts.length]?).map (·.1) := by
+  have hlt : (r + dsts.length - shift % dsts.length) % dsts.length < srcs.length := by
+    rw [hP]; exact Nat.mod_lt _ (by omega)
+  simp only [Spec.ringRrecv, List.getElem?_mapIdx, List.getElem?_eq_getElem hr, List.getElem?_eq_getElem hlt,
+    Option.map_some]
+  obtain ⟨m, hm⟩ := hd _ (List.getElem_mem hr)
+  rw [Proofs.rrecv_full e _ m he _ dflt _ (hs _ (List.getElem_mem hlt)) hdf hm]
+
+example : Spec.ringRrecv (full 1) [0] 1 [([1, 2], 2), ([], 0), ([3], 1)] [[9, 9, 9], [8], []] = [[3], [1, 2], []] := by
+  decide
 
 end DV.C07
